@@ -559,7 +559,7 @@ def rule_r7(ctx) -> List[R.Inst]:
     if loop is None:
         # the groups iterated directly: for m, g in notes.groupby("measure")
         loop = next((n for n in walk_no_nested(wr.node) if isinstance(n, ast.For) and isinstance(n.iter, ast.Call) and call_name(n.iter) == "groupby"
-                     and unparse(n.iter.func.value) == "notes"), None)
+                     and isinstance(n.iter.func, ast.Attribute) and unparse(n.iter.func.value) == "notes"), None)
     cv = _column_values(wr.node, loop)
     d, nn = cv["cols"].get("den"), cv["cols"].get("num")
     lfp = lambda n: {"NUM": "NUM", "DEN": "DEN", "METRONOME": "M4"}.get(unparse(n))   # noqa: E731
